@@ -32,6 +32,8 @@ def main():
     ap.add_argument('--checks')
     ap.add_argument('--demo-timeout', type=int, default=120)
     ap.add_argument('--keep-anyway', action='store_true')
+    ap.add_argument('--dst-n', help='number under /verif/seeded/<ID>-<dst-n> (default: n)')
+    ap.add_argument('--jobs', type=int, default=6)
     a = ap.parse_args()
     src = os.path.join(a.src, a.id, 'out', a.n)
     patch = os.path.join(src, 'patch.diff')
@@ -60,38 +62,40 @@ def main():
         log['suite_with_patch'] = {'exit': rct, 'tail': outt[-1200:]}
         rc1, out1 = demo()
         log['demo_with_patch'] = {'exit': rc1, 'tail': out1[-2500:]}
+        # run the checks on the scratch worktree (patch applied) with a shadow verification directory,
+        # so that neither /repo nor /verif/evidence is touched and several seeds can be processed at once
+        ok = rc0 == 0 and rct == 0 and rc1 != 0
+        print('demo without patch: exit %d | suite with patch: exit %d | demo with patch: exit %d  => %s' % (rc0, rct, rc1, 'CONFIRMED' if ok else 'NOT CONFIRMED'))
+        if not ok:
+            print(json.dumps(log, indent=1)[:6000])
+            if not a.keep_anyway:
+                return 1
+        man = json.load(open('/verif/MANIFEST.json'))
+        ids = ([] if a.checks == 'none' else a.checks.split(',')) if a.checks else [c['property_id'] for c in man['checks']]
+        shadow = wt + '.vf'
+        shutil.rmtree(shadow, ignore_errors=True)
+        os.makedirs(os.path.join(shadow, 'evidence'))
+        for f in ('testdata', 'known_findings.json', 'bin', 'MANIFEST.json', 'properties.jsonl'):
+            os.symlink(os.path.join('/verif', f), os.path.join(shadow, f))
+        sh('git status --porcelain', cwd=wt)
+        detected, silent = {}, []
+        from concurrent.futures import ThreadPoolExecutor
+        def one(cid):
+            t = time.time()
+            rc, out = sh('/verif/bin/phpverif check %s --tier quick --repo %s --verif %s' % (cid, wt, shadow), cwd='/verif', timeout=1200)
+            lines = [l for l in out.splitlines() if l.startswith('  violated') or l.startswith('  undecided')]
+            return cid, rc, lines, time.time() - t
+        with ThreadPoolExecutor(a.jobs) as ex:
+            for cid, rc, lines, dt in ex.map(one, ids):
+                if rc != 0:
+                    detected[cid] = [l.strip()[:400] for l in lines[:6]]
+                else:
+                    silent.append(cid)
+                print('  check %s: exit %d (%.1fs) %s' % (cid, rc, dt, (lines[0].strip()[:200] if lines else '')))
+        shutil.rmtree(shadow, ignore_errors=True)
     finally:
         sh('git -C /repo worktree remove --force %s' % wt)
-        sh('go clean -testcache')
-    ok = rc0 == 0 and rct == 0 and rc1 != 0
-    print('demo without patch: exit %d | suite with patch: exit %d | demo with patch: exit %d  => %s' % (rc0, rct, rc1, 'CONFIRMED' if ok else 'NOT CONFIRMED'))
-    if not ok:
-        print(json.dumps(log, indent=1)[:6000])
-        if not a.keep_anyway:
-            return 1
-    # run the checks on /repo with the patch applied
-    rc, out = sh('git -C /repo status --porcelain')
-    assert out.strip() == '', '/repo is not clean: ' + out
-    man = json.load(open('/verif/MANIFEST.json'))
-    ids = ([] if a.checks == 'none' else a.checks.split(',')) if a.checks else [c['property_id'] for c in man['checks']]
-    detected, silent = {}, []
-    rc, out = sh('git -C /repo apply %s' % patch)
-    assert rc == 0, out
-    try:
-        for cid in ids:
-            t = time.time()
-            rc, out = sh('./check %s quick' % cid, cwd='/verif', timeout=1200)
-            lines = [l for l in out.splitlines() if l.startswith('  violated') or l.startswith('  undecided')]
-            if rc != 0:
-                detected[cid] = [l.strip()[:400] for l in lines[:6]]
-            else:
-                silent.append(cid)
-            print('  check %s: exit %d (%.1fs) %s' % (cid, rc, time.time() - t, (lines[0].strip()[:200] if lines else '')))
-    finally:
-        sh('git -C /repo checkout -- . && git -C /repo clean -fdq')
-    # evidence files were rewritten by runs on the mutated tree: restore them
-    sh('git -C /verif checkout -- evidence')
-    dst = '/verif/seeded/%s-%s' % (a.id, a.n)
+    dst = '/verif/seeded/%s-%s' % (a.id, a.dst_n or a.n)
     os.makedirs(dst, exist_ok=True)
     shutil.copy(patch, dst)
     for f in os.listdir(src):
@@ -103,7 +107,7 @@ def main():
                 # keep the demo from being compiled as part of /verif's module
                 shutil.copy(p, os.path.join(dst, f + '.txt' if f.endswith('.go') else f))
     meta['confirmed'] = ok
-    meta['confirmation'] = {'how': 'tools/seed_verify.py in a scratch worktree of /repo HEAD (removed afterwards): demonstration without the patch, unedited suite with the patch, demonstration with the patch',
+    meta['confirmation'] = {'how': 'tools/seed_verify.py in a scratch worktree of /repo HEAD (removed afterwards): demonstration without the patch, unedited suite with the patch, demonstration with the patch; the registered checks were then run on that patched worktree (phpverif check <ID> --repo <worktree>)',
                             'demo_location': a.pkg, 'demo_run': a.run, 'demo_cmd': a.demo_cmd, 'results': log}
     meta['checks_run'] = ids
     meta['detected_by'] = detected
